@@ -183,17 +183,43 @@ fn c14_complete_status(max_items: u32, threads_form: bool) {
   let cw = Arc::new(CountWaker(AtomicUsize::new(0)));
   let waker = Waker::from(cw.clone());
   let mut cx = Context::from_waker(&waker);
-  let mut fut = Box::pin(verif_status_future(status.clone()));
+  let mut fut: Pin<Box<dyn Future<Output = rxrust::scheduler::NormalReturn<()>>>> = Box::pin(verif_status_future(status.clone()));
   let evs = script.events();
   let n = evs.len();
   // where the waiter polls: before event i (0..=n), and whether the event that follows runs
   // *inside* the poll at the hooked yield point (the producer thread racing the waiter)
   let poll_at = e::choose(n as u32 + 2) as usize; // n+1 = never polls before the end
   let race = poll_at < n && e::choose_bool();
+  // alternatively the waiter thread polls while the producer is inside the subscriber's terminal
+  // handler (the terminal is being delivered downstream, the flag is not stored yet)
+  let poll_in_handler = !race && terminated_script(&script) && e::choose_bool();
+  type StatusFut = Pin<Box<dyn Future<Output = rxrust::scheduler::NormalReturn<()>>>>;
+  let fut_cell: std::rc::Rc<std::cell::RefCell<Option<StatusFut>>> = Default::default();
+  let handler_result: std::rc::Rc<std::cell::Cell<u8>> = Default::default(); // 0 not polled, 1 pending, 2 ready
   let mut ready = false;
   let mut last_pending_wakes: Option<usize> = None;
   let mut i = 0;
   world::yield_enable();
+  if poll_in_handler {
+    // hand the future to the handler hook; it is taken back afterwards
+    *fut_cell.borrow_mut() = Some(std::mem::replace(&mut fut, Box::pin(std::future::pending())));
+    let (fc, hr, cw2) = (fut_cell.clone(), handler_result.clone(), cw.clone());
+    world::w(|w| {
+      w.on_probe_event = Some(Box::new(move |ev: &Ev| {
+        if !matches!(ev, Ev::Next(_)) && hr.get() == 0 {
+          let waker = Waker::from(cw2.clone());
+          let mut cx = Context::from_waker(&waker);
+          if let Some(f) = fc.borrow_mut().as_mut() {
+            e::note("  [waiter thread polls while the terminal is being delivered]".to_string());
+            match f.as_mut().poll(&mut cx) {
+              Poll::Ready(_) => hr.set(2),
+              Poll::Pending => hr.set(1),
+            }
+          }
+        }
+      }))
+    });
+  }
   while i <= n {
     if i == poll_at {
       if race {
@@ -259,6 +285,20 @@ fn c14_complete_status(max_items: u32, threads_form: bool) {
     i += 1;
   }
   fn continue_after(_i: &mut usize) {}
+  if poll_in_handler {
+    world::w(|w| w.on_probe_event = None);
+    if let Some(f) = fut_cell.borrow_mut().take() {
+      fut = f;
+    }
+    match handler_result.get() {
+      2 => ready = true,
+      1 => {
+        // it returned Pending before the flag was stored: a wake-up must have followed
+        last_pending_wakes = Some(0);
+      }
+      _ => {}
+    }
+  }
   let terminated = !matches!(script.term, Tm::None);
   // flags
   let (closed, completed, errored) = (status.is_closed(), status.is_completed(), status.error_occur());
@@ -292,6 +332,10 @@ fn c14_complete_status(max_items: u32, threads_form: bool) {
   }
   world::hooks_disable();
   e::cover("c14-status-path-complete");
+}
+
+fn terminated_script(s: &Script) -> bool {
+  !matches!(s.term, Tm::None)
 }
 
 pub fn harnesses() -> Vec<HarnessDef> {
